@@ -49,7 +49,7 @@ func (w *wrapRec) Reopen() error {
 	n.h.mu.Lock()
 	n.reopens++
 	n.h.reopenCalls = append(n.h.reopenCalls, n.inst)
-	fail := n.h.failInst != 0 && n.h.failInst == n.inst
+	fail := n.h.failInst != 0 && (n.h.failInst == n.inst || n.h.failInst2 == n.inst)
 	if fail && n.h.failOnce {
 		fail = !n.h.failedOnce
 		n.h.failedOnce = true
@@ -180,7 +180,7 @@ func (n *recNode) Reopen() error {
 	}
 	n.reopens++
 	n.h.reopenCalls = append(n.h.reopenCalls, n.inst)
-	fail := n.h.failInst != 0 && n.h.failInst == n.inst
+	fail := n.h.failInst != 0 && (n.h.failInst == n.inst || n.h.failInst2 == n.inst)
 	if fail && n.h.failOnce {
 		fail = !n.h.failedOnce
 		n.h.failedOnce = true
@@ -238,6 +238,7 @@ type regHarness struct {
 	closed      []int
 	reopenCalls []int
 	failInst    int
+	failInst2   int
 	doneSeq     int
 	failOnce    bool
 	failedOnce  bool
@@ -848,6 +849,11 @@ func (h *regHarness) exec(line string) string {
 		h.calls = nil
 		h.curType = string(tyS(ty))
 		h.curPayload = fmt.Sprintf("payload-%d", h.st.Ops)
+		if len(h.caseOps)%5 == 0 {
+			// the payload is itself an Event of the type being sent (an event kept from an earlier Send, with a
+			// line already in its format table): it is a payload like any other
+			h.curPayload = &eventlogger.Event{Type: tyS(ty), CreatedAt: time.Unix(1, 0), Payload: "inner", Formatted: map[string][]byte{"json": []byte("{}\n")}}
+		}
 		h.returned = nil
 		h.mu.Unlock()
 		status, err := h.b.Send(ctx, tyS(ty), h.curPayload)
@@ -957,6 +963,26 @@ func (h *regHarness) exec(line string) string {
 		// every third failure is transient: the node's Reopen fails once and would succeed if it were asked again
 		h.failOnce = len(h.caseOps)%3 == 0
 		h.failedOnce = false
+		// every fourth failing Reopen a second node fails too (the next instance listed by some pipeline)
+		h.failInst2 = 0
+		failListed := false
+		for _, sp := range h.pipes {
+			for _, n := range sp.insts {
+				failListed = failListed || n.inst == fail
+			}
+		}
+		if fail != 0 && failListed && len(h.caseOps)%4 == 1 {
+			for _, sp := range h.pipes {
+				for _, n := range sp.insts {
+					if n.inst != fail && (h.failInst2 == 0 || n.inst < h.failInst2) {
+						h.failInst2 = n.inst
+					}
+				}
+			}
+			if h.failInst2 != 0 {
+				h.failOnce = false
+			}
+		}
 		h.mu.Unlock()
 		rctx := ctx
 		if len(h.caseOps)%2 == 0 {
@@ -968,7 +994,20 @@ func (h *regHarness) exec(line string) string {
 		err := h.b.Reopen(rctx)
 		h.mu.Lock()
 		calls := append([]int(nil), h.reopenCalls...)
-		h.failInst = 0
+		fail2 := h.failInst2
+		h.failInst, h.failInst2 = 0, 0
+		if fail2 != 0 && err != nil {
+			// every failing node that was asked is in what Reopen returns
+			for _, fi := range []int{fail, fail2} {
+				asked := false
+				for _, c := range calls {
+					asked = asked || c == fi
+				}
+				if asked && !strings.Contains(err.Error(), instErr{fi}.Error()) {
+					h.oracle("C20 Reopen with two failing nodes (instances %d and %d, both asked): the error %q does not carry the failure of instance %d", fail, fail2, err.Error(), fi)
+				}
+			}
+		}
 		h.mu.Unlock()
 		// C20 oracle
 		failing := false
@@ -984,7 +1023,7 @@ func (h *regHarness) exec(line string) string {
 		if failing {
 			h.st.hit("reopen:failing")
 			var ie instErr
-			if err == nil || !errors.As(err, &ie) || ie.inst != fail {
+			if err == nil || !errors.As(err, &ie) || (ie.inst != fail && ie.inst != fail2) || (fail2 == 0 && ie.inst != fail) {
 				h.oracle("C20 Reopen with failing instance %d (transient=%v) returned %v", fail, h.failOnce, err)
 			}
 			nFail, nListed := 0, 0
